@@ -561,8 +561,8 @@ def search(ctx, events, depth, acc_all, label):
 
 def run(ctx):
     acc = par.Acc()
-    d2 = ctx.q(4, 5)
-    d1 = ctx.q(5, 7)
+    d2 = ctx.q(4, 6)
+    d1 = ctx.q(5, 8)
     n2, layers2 = search(ctx, EVENTS2, d2, acc, "two-checkouts")
     n1, layers1 = search(ctx, EVENTS1, d1, acc, "one-checkout")
     # determinism audit
